@@ -44,9 +44,10 @@ class Events:
         self._du = {}
 
     def du(self, fn):
-        if fn.path not in self._du:
-            self._du[fn.path] = DefUse(self.facts, fn)
-        return self._du[fn.path]
+        key = (fn.path, id(fn) if hasattr(fn, 'inlined') else 0)
+        if key not in self._du:
+            self._du[key] = DefUse(self.facts, fn)
+        return self._du[key]
 
     def _role(self, name):
         return self.A.get(name)
@@ -84,9 +85,10 @@ class Events:
         from flow import Prov
         if not hasattr(self, '_prov'):
             self._prov = {}
-        if fn.path not in self._prov:
-            self._prov[fn.path] = Prov(fn)
-        pv = self._prov[fn.path]
+        pkey = (fn.path, id(fn) if hasattr(fn, 'inlined') else 0)
+        if pkey not in self._prov:
+            self._prov[pkey] = Prov(fn)
+        pv = self._prov[pkey]
         out = set()
         for (adt, name) in pv.prov[local]:
             if adt and last_seg(adt) == 'DBInner':
